@@ -64,3 +64,84 @@ func wfRangeReq(o *ObjectRangeRequest) bool {
 //@ ensures [C04,C14] dflt:    imp(ret1 == nil && in == "", ret0 == ite(defaultValue < min, min, ite(defaultValue > max, max, defaultValue)))
 //@ ensures [C09]     err:     imp(ret1 != nil, errcode(ret1) == ErrInvalidArgument)
 //@ modifies nothing
+
+//@ func parseRangeHeader
+//@ props C11 C09
+//@ ensures [C11]     empty:   imp(s == "", ret0 == nil && ret1 == nil)
+//@ ensures [C11]     errs:    imp(ret1 != nil, ret0 == nil && errcode(ret1) == ErrInvalidRange)
+//@ ensures [C11]     wf:      wfRangeReq(ret0)
+//@ ensures [C11]     fromend: imp(ret0 != nil && ret0.FromEnd, ret0.Start == 0)
+//@ ensures [C11]     some:    imp(ret1 == nil && s != "", ret0 != nil)
+//@ ensures           fresh:   imp(ret0 != nil, fresh(ret0))
+//@ modifies nothing
+
+// ---- error constructors ------------------------------------------------------
+
+//@ func ErrorMessage
+//@ props C09
+//@ ensures           code:    ret0 != nil && errcode(ret0) == code
+//@ ensures           fresh:   typeis(ret0, *ErrorResponse) && fresh(dyn(ret0, *ErrorResponse))
+//@ modifies nothing
+
+//@ func ErrorMessagef
+//@ props C09
+//@ ensures           code:    ret0 != nil && errcode(ret0) == code
+//@ ensures           fresh:   typeis(ret0, *ErrorResponse) && fresh(dyn(ret0, *ErrorResponse))
+//@ modifies nothing
+
+//@ func ResourceError
+//@ props C09
+//@ ensures           code:    ret0 != nil && errcode(ret0) == code
+//@ ensures           fresh:   typeis(ret0, *resourceErrorResponse) && fresh(dyn(ret0, *resourceErrorResponse))
+//@ modifies nothing
+
+//@ func BucketNotFound
+//@ props C09
+//@ ensures           code:    ret0 != nil && errcode(ret0) == ErrNoSuchBucket
+//@ ensures           fresh:   typeis(ret0, *resourceErrorResponse) && fresh(dyn(ret0, *resourceErrorResponse))
+//@ modifies nothing
+
+//@ func KeyNotFound
+//@ props C09
+//@ ensures           code:    ret0 != nil && errcode(ret0) == ErrNoSuchKey
+//@ ensures           fresh:   typeis(ret0, *resourceErrorResponse) && fresh(dyn(ret0, *resourceErrorResponse))
+//@ modifies nothing
+
+//@ func ErrorInvalidArgument
+//@ props C09
+//@ ensures           code:    ret0 != nil && errcode(ret0) == ErrInvalidArgument
+//@ modifies nothing
+
+//@ func (ErrorCode).Message
+//@ props C09
+//@ modifies nothing
+
+// ---- C12: aws-chunked decoding -----------------------------------------------
+//
+// Framing (from the property statement): every chunk is
+//   <hex size> ";chunk-signature=" <64 hex digits> "\r\n" <payload> "\r\n"
+// so after the number and the ';' (what Fscanf "%x;" consumes) there are
+// 16+64+2 = 82 more header bytes, and every payload is followed by 2 bytes.
+
+//@ func (*chunkedReader).Read
+//@ props C12 C09
+//@ requires          wf:     r != nil && r.inner != nil
+//@ loop 1 invariant  fill:   0 <= n && 0 <= sizeToRead && n + sizeToRead == len(p)
+//@ loop 1 step [C12] track:  imp(old(r.chunkRemain) > 0, r.chunkRemain + n == old(r.chunkRemain) + old(n))
+//@ loop 1 step [C12] data:   imp(old(r.chunkRemain) > 0,
+//@                             rd_pos(r.inner) == old(rd_pos(r.inner)) + (n - old(n)) &&
+//@                             r.notFirstChunk == old(r.notFirstChunk))
+//@ loop 1 step [C12] header: imp(old(r.chunkRemain) <= 0 && err__1 == nil,
+//@                             n == old(n) && r.notFirstChunk &&
+//@                             rd_pos(r.inner) == old(rd_pos(r.inner)) + ite(old(r.notFirstChunk), 2, 0)
+//@                               + hdrlen[old(rd_pos(r.inner)) + ite(old(r.notFirstChunk), 2, 0)] + 82 &&
+//@                             r.chunkRemain == hdrval[old(rd_pos(r.inner)) + ite(old(r.notFirstChunk), 2, 0)])
+//@ ensures [C12,C09] n:      0 <= n && n <= len(p)
+//@ refines io.Reader.Read n
+//@ modifies p[:], r.chunkRemain, r.notFirstChunk, rd_pos(r.inner)
+
+//@ func newChunkedReader
+//@ props C12
+//@ ensures [C12]     init:   ret0 != nil && ret0.inner == inner && ret0.chunkRemain == 0 && !ret0.notFirstChunk
+//@ ensures           fresh:  fresh(ret0)
+//@ modifies nothing
